@@ -139,6 +139,15 @@ func (s *server) processPushlog(
 	if err != nil {
 		return nil, err
 	}
+	// The head that gets merged is named by its identifier, the block that gets verified and
+	// synced is the one carried by the request: they must be one and the same.
+	blockLink, err := block.GenerateLink()
+	if err != nil {
+		return nil, err
+	}
+	if !blockLink.Cid.Equals(headCID) {
+		return nil, ErrPushLogCIDMismatch
+	}
 
 	// No need to check access if the message is for replication as the node sending
 	// will have done so deliberately.
